@@ -176,6 +176,18 @@ class LoopCutter(ast.NodeTransformer):
         self.generic_visit(n)
         return n
 
+    def visit_ListComp(self, n):
+        """[ELT for T in IT]  ==>  _vc_listcomp(lambda T: ELT, IT): a python list when IT is concrete, a symbolic list
+        (length + item closure) when IT has symbolic length.  Other comprehension forms are left alone."""
+        self.generic_visit(n)
+        if len(n.generators) == 1 and not n.generators[0].ifs and not n.generators[0].is_async \
+                and isinstance(n.generators[0].target, ast.Name):
+            g = n.generators[0]
+            lam = ast.Lambda(args=ast.arguments(posonlyargs=[], args=[ast.arg(g.target.id)], kwonlyargs=[], kw_defaults=[], defaults=[]),
+                             body=n.elt)
+            return ast.Call(ast.Name("_vc_listcomp", ast.Load()), [lam, g.iter], [])
+        return n
+
     def _cut(self, node, is_for):
         idx = self.counter[-1]
         self.counter[-1] += 1
@@ -432,6 +444,10 @@ def vc_max(*a, **k):
 
 def vc_isinstance(obj, cls):
     import numbers
+    if cls is vc_str:
+        cls = builtins.str
+    elif isinstance(cls, tuple) and any(c is vc_str for c in cls):
+        cls = tuple(builtins.str if c is vc_str else c for c in cls)
     if isinstance(obj, SymInt):
         tup = cls if isinstance(cls, tuple) else (cls,)
         return any(c in (int, numbers.Integral, numbers.Number, numbers.Real, numpy.integer, object) for c in tup)
@@ -448,6 +464,66 @@ def vc_int(x=0, *a):
     if isinstance(x, SymInt):
         return x
     return builtins.int(x, *a)
+
+
+def vc_listcomp(fn, it):
+    if is_symbolic_iterable(it):
+        seq = as_symseq(it)
+
+        def at(k):
+            return _t(fn(seq.item(wrap(k))))
+        probe = at(z3.Int("q_lc"))
+        return SymList(seq.length(), at, probe.sort())
+    return [fn(x) for x in it]
+
+
+PYSTR = z3.DeclareSort("PyStr")
+_LITS = {}
+STRPAD = z3.Function("STRPAD", z3.IntSort(), z3.IntSort(), PYSTR)     # str(i).zfill(w); w = 0: str(i)
+CAT = z3.Function("CAT", PYSTR, PYSTR, PYSTR)
+STR_TRUST = ("python strings are an uninterpreted sort: literals are pairwise distinct constants, str(i).zfill(w) is injective "
+             "in i (STRPAD), concatenation with a fixed prefix is injective in the suffix (CAT)")
+
+
+def str_lit(v):
+    if v not in _LITS:
+        _LITS[v] = z3.Const("lit_%d_%s" % (len(_LITS), "".join(c if c.isalnum() else "_" for c in v)[:12]), PYSTR)
+    return _LITS[v]
+
+
+def str_axioms():
+    a, b, w = z3.Ints("q_sa q_sb q_sw")
+    x, y, pfx = z3.Consts("q_sx q_sy q_sp", PYSTR)
+    ax = [z3.ForAll([a, b, w], z3.Implies(STRPAD(a, w) == STRPAD(b, w), a == b), patterns=[z3.MultiPattern(STRPAD(a, w), STRPAD(b, w))]),
+          z3.ForAll([pfx, x, y], z3.Implies(CAT(pfx, x) == CAT(pfx, y), x == y), patterns=[z3.MultiPattern(CAT(pfx, x), CAT(pfx, y))])]
+    if len(_LITS) > 1:
+        ax.append(z3.Distinct(*_LITS.values()))
+    return ax
+
+
+class SymStr:
+    """a python string built from symbolic integers: term of the uninterpreted sort PyStr"""
+
+    def __init__(self, term, num=None):
+        self._vc_term = term
+        self._num = num          # (int term) when the string is str(i), so that zfill can form STRPAD(i, w)
+
+    def zfill(self, w):
+        if self._num is None:
+            raise Unsupported("zfill of a symbolic string that is not str(<int>)")
+        return SymStr(STRPAD(self._num, _t(w)))
+
+    def __add__(self, o):
+        return SymStr(CAT(self._vc_term, _t(o) if not isinstance(o, str) else str_lit(o)))
+
+    def __radd__(self, o):
+        return SymStr(CAT(str_lit(o) if isinstance(o, str) else _t(o), self._vc_term))
+
+
+def vc_str(x="", *a):
+    if isinstance(x, SymInt):
+        return SymStr(STRPAD(x.t, z3.IntVal(0)), num=x.t)
+    return builtins.str(x, *a)
 
 
 import numbers as _numbers
@@ -487,7 +563,7 @@ class patched_modules:
 
 
 OVERRIDES = dict(len=vc_len, range=vc_range, enumerate=vc_enumerate, zip=vc_zip, min=vc_min, max=vc_max,
-                 isinstance=vc_isinstance)
+                 isinstance=vc_isinstance, str=vc_str, _vc_listcomp=vc_listcomp)
 
 
 class LoopRT:
